@@ -2646,6 +2646,7 @@ func (s *Server) serveConnCounted(c net.Conn, countConcurrency bool) error {
 		// the response needs to know about the request.
 		isHead := ctx.IsHead()
 		isHTTP11 := ctx.Request.Header.IsHTTP11()
+		_, bodyStreamed := ctx.Request.bodyStream.(*requestStream)
 
 		// If a client denies a request the handler should not be called
 		if continueReadingRequest {
@@ -2664,6 +2665,14 @@ func (s *Server) serveConnCounted(c net.Conn, countConcurrency bool) error {
 			// Acquire a new ctx because the old one will still be in use by the timeout out handler.
 			ctx = s.acquireCtx(c)
 			timeoutResponse.CopyTo(&ctx.Response)
+			if bodyStreamed {
+				// The timed-out handler may still be reading the request body
+				// from the connection through br. The reader is its now: don't
+				// look at it, don't recycle it, and don't expect another
+				// request on this connection.
+				br = nil
+				connectionClose = true
+			}
 		}
 
 		if isHead {
